@@ -99,7 +99,7 @@ pub fn render_case(c: &Case) -> Rendered {
     let mut cfg = GenCfg::full();
     cfg.max_stmts = 40;
     // (feature "source:imports": a project of two files with imports of every form, see c07x)
-    let prog = if c.features.iter().any(|f| f == "source:imports") { crate::props::c07x::import_pair(&c.entropy).original } else { build(&c.entropy, &cfg).prog };
+    let prog = if c.features.iter().any(|f| f == "source:imports") { crate::props::c07x::import_pair(&c.entropy).original } else if c.features.iter().any(|f| f == "source:type-errors") { crate::props::c07x::type_error_program(&c.entropy) } else { build(&c.entropy, &cfg).prog };
     let mut f = RandFiller::new(&c.trivia, trivia_cfg(&c.features));
     let (proj, rs) = prog.render_with(&mut f);
     // which slot ids received a comment
@@ -562,6 +562,9 @@ pub fn run_check12(ctx: &mut Ctx) {
     ctx.campaign_parallel("clean-domain", n, 16, || strategy(vec!["label_and_instruction_on_one_line".to_string(), "comment_before_statement_same_line".to_string(), "config_pairs_on_one_line".to_string()]), prop12, to_json);
     let n3 = ctx.tier.pick(5000, 80_000);
     ctx.campaign_parallel("imports", n3, 16, || strategy(vec!["source:imports".to_string(), "label_and_instruction_on_one_line".to_string(), "comment_before_statement_same_line".to_string()]), prop12, to_json);
+    // programs whose diagnostics quote an expression: formatting must not change what they say
+    let n5 = ctx.tier.pick(3000, 40_000);
+    ctx.campaign_parallel("type-errors", n5, 16, || strategy(vec!["source:type-errors".to_string(), "label_and_instruction_on_one_line".to_string()]), prop12, to_json);
     if crate::sut::cli::have_mos() {
         let n4 = ctx.tier.pick(1600, 20_000);
         ctx.campaign_parallel("cli", n4, 16, || strategy(vec!["source:imports".to_string(), "cli".to_string(), "label_and_instruction_on_one_line".to_string()]), prop_cli, to_json);
@@ -584,8 +587,8 @@ pub fn run_check13(ctx: &mut Ctx) {
     ctx.rule = format!("{}. oracle C13: format(format(p)) == format(p) with the same options, every file", RULE);
     let n = ctx.tier.pick(14_000, 300_000);
     // (`label: instruction` and two config pairs on one line were triggers of findings that have been repaired: part of
-    // the clean domain. A comment in front of a statement on the same line still is one.)
-    ctx.campaign_parallel("clean-domain", n, 16, || strategy(vec!["label_and_instruction_on_one_line".to_string(), "config_pairs_on_one_line".to_string()]), prop13, to_json);
+    // the clean domain, and so is, since dc4b6fe, a comment in front of a statement on the same line.)
+    ctx.campaign_parallel("clean-domain", n, 16, || strategy(vec!["label_and_instruction_on_one_line".to_string(), "config_pairs_on_one_line".to_string(), "comment_before_statement_same_line".to_string()]), prop13, to_json);
     let n3 = ctx.tier.pick(5000, 80_000);
     ctx.campaign_parallel("imports", n3, 16, || strategy(vec!["source:imports".to_string(), "label_and_instruction_on_one_line".to_string()]), prop13, to_json);
     for f in ["multiline_block_comment", "empty_line_comment", "comment_before_statement_same_line"] {
